@@ -73,8 +73,16 @@ func (s statusWriter) Update(ctx context.Context, obj client.Object, _ ...client
 	if v, ok := ctx.Value(opKey{}).(int); ok {
 		op = v
 	}
-	tag, err := strconv.Atoi(obj.GetName())
-	if err != nil || obj.GetAnnotations()["verif-tag"] != obj.GetName() {
+	// the tag travels in the annotation the request's setter wrote; the object the client is asked to update must be
+	// the (kind, namespace, name) that tag addresses
+	tag, err := strconv.Atoi(obj.GetAnnotations()["verif-tag"])
+	if err == nil {
+		kind, nn := tagKey(tag)
+		if kindIndex(obj) != kind || obj.GetNamespace() != nn.Namespace || obj.GetName() != nn.Name {
+			err = strconv.ErrSyntax
+		}
+	}
+	if err != nil {
 		tag = 999999 // a write that is not the result of any submitted request
 	}
 	s.c.mu.Lock()
